@@ -50,9 +50,29 @@ def many_events_scenario(seed, i, store):
     return {"id": f"c17-{seed}-{i}-{store}-events", "config": cfg, "models": models, "ops": ops, "exprs": {}, "pids": ["p0"]}
 
 
+def parallel_end_scenario(seed, i, store):
+    """a process with several branches waiting at once is ended from one of them (abort, error, skip) or answered to its end, and is kept:
+    every row it leaves is in a terminal state; a second process goes on meanwhile"""
+    rng = Rng(seed * 49979693 + i)
+    brs = [{"id": f"m0b{j}", "if": "(x == 0)", "steps": [{"id": f"m0s1{j}", "acts": [{"id": f"m0a{j}", "uses": gen.IRQ, "key": f"m0ka{j}"}] +
+                                                        ([{"id": f"m0c{j}", "uses": gen.IRQ, "key": f"m0kc{j}"}] if rng.chance(1, 3) else [])}]} for j in range(rng.range(2, 3))]
+    w = {"id": "m0", "steps": [{"id": "m0s1", "branches": brs}, {"id": "m0s2", "acts": [{"id": "m0z", "uses": gen.IRQ, "key": "m0kz"}]}]}
+    ops = [["chan_open", {"id": "ackc", "ack": True}], ["deploy", 0], ["start", "m0", {"pid": "p0", "x": 0, "y": 0}], ["start", "m0", {"pid": "p1", "x": 0, "y": 0}], ["runall"]]
+    if rng.chance(1, 2):
+        ops += [["act", "next", "p0", {"open": 0}, {}], ["runall"]]
+    how = rng.pick(["abort", "abort", "error", "skip", "abort"])
+    ops += [["act", how, "p0", {"open": rng.below(2)}, {"ecode": "e1", "message": "x"}], ["runall", rng.pick(["fifo", "lifo"]), rng.below(1 << 30)]]
+    for _ in range(4):
+        ops += [["act", "next", "p1", {"open": 0}, {}], ["runall"], ["act", "next", "p0", {"open": 0}, {}], ["runall"]]
+    cfg = {"keep": rng.chance(3, 4), "store": store, "rows_each": ["procs", "tasks", "messages", "events", "models"]}
+    return {"id": f"c17-{seed}-{i}-{store}-parallel", "config": cfg, "models": [w], "ops": ops, "exprs": {"(x == 0)": ["bin", "==", ["var", "x"], ["lit", 0]]}, "pids": ["p0", "p1"]}
+
+
 def gen_scenario(seed, i, store):
     if i % 10 == 6:
         return many_events_scenario(seed, i, store)
+    if i % 10 == 3:
+        return parallel_end_scenario(seed, i, store)
     rng = Rng(seed * 49979693 + i)
     keep = rng.chance(1, 2)
     models, exprs = [], {}
@@ -158,6 +178,13 @@ def run(ctx):
                 if pid in finished:
                     if keep and pid in prow and prow[pid]["state"] not in TERMINAL:
                         bad = ("kept-process-not-terminal", f"op {i}: kept process row {pid} has state {prow[pid]['state']}")
+                    elif keep and not any(o.get("k") == "pev" and o.get("pid") == pid and o.get("ev") in ("complete", "error") for o in obs):
+                        # … and so are the rows of its tasks (looked at from the operation after the ending on: the last task events of the
+                        # ending itself may still be on their way)
+                        open_rows = sorted((r["id"], r["state"]) for r in trow.get(pid, []) if r["state"] not in TERMINAL)
+                        if open_rows:
+                            how = finished[pid]
+                            bad = (f"kept-task-row-not-terminal|{how}", f"op {i}: process {pid} has ended ({how}) and is kept, its task rows {open_rows[:3]} are not in a terminal state")
                 else:
                     # a live process is never collateral damage of another one's removal
                     started = any(o2.get("k") == "new" and o2.get("pid") == pid for st2 in res["steps"][: res["steps"].index(st) + 1] for o2 in st2["obs"])
